@@ -13,6 +13,7 @@ from ..core import Ctx
 from ..envs import EnvA
 from ..model import AnalysisError
 from ..tables import routing as T
+from ..model import alpha_key
 from ..tables.batch_exceptions import EXCEPTIONS
 
 FLOOR = 80
@@ -148,6 +149,17 @@ def rank_sensitive_consumer(root, node) -> bool:
     return False
 
 
+_ALPHA_TABLES = {}
+
+
+def alpha_table(table):
+    """exception table re-keyed by the rename / mirror invariant form of its source text"""
+    k = id(table)
+    if k not in _ALPHA_TABLES:
+        _ALPHA_TABLES[k] = {(fn, kind, alpha_key(txt)): why for (fn, kind, txt), why in table.items()}
+    return _ALPHA_TABLES[k]
+
+
 def classify(ctx: Ctx, h: ba.Hit, root, uni, tfuncs, exceptions, per_row):
     """-> (status, reason, function, text, where); status in ok | bad"""
     fn, text, where = locate(ctx, h)
@@ -162,7 +174,7 @@ def classify(ctx: Ctx, h: ba.Hit, root, uni, tfuncs, exceptions, per_row):
         return "ok", f"operand is row-uniform: every write of {sorted(deps_c)} is a constant fill or key + const", fn, text, where
     if fn in per_row:
         return "ok", per_row[fn], fn, text, where
-    why = exceptions.get((fn, h.kind, text))
+    why = alpha_table(exceptions).get((fn, h.kind, alpha_key(text)))
     if why is not None:
         return "ok", "exception: " + why, fn, text, where
     return "bad", h.why, fn, text, where
@@ -246,7 +258,7 @@ def run(ctx: Ctx):
                 ctx.ob("C04.a", f"{cname}.{meth}:{fn}:{h.kind}", False, where or sl.where,
                        f"{h.kind} `{text}` in {fn}: {why}. It flows into {sorted(set(snks))[:6]} of {cname}.{meth}: "
                        f"what is computed for one instance depends on the other rows of the batch",
-                       construct=f"{fn}:{h.kind}:{text}")
+                       construct=f"{fn}:{h.kind}:{alpha_key(text)}")
             if not bad:
                 ctx.ob("C04.a", f"{cname}.{meth}", True, sl.where, f"{len(sinks)} sinks, {len(per_hit)} batch-global ops, all justified")
         ctx.sample({"env": cname, "row_uniform_keys": sorted(uni), "known_ranks": dict(sorted(ranks.cell_rank.items()))})
